@@ -1,0 +1,207 @@
+//go:build verif
+// +build verif
+
+package astits
+
+import (
+	"bytes"
+	"time"
+	"unsafe"
+
+	"github.com/asticode/go-astikit"
+)
+
+// Exported wrappers around unexported pure functions and read-only projections of
+// internal state. Only compiled with -tags verif; used by the conformance harness.
+
+func VerifComputeCRC32(bs []byte) uint32          { return computeCRC32(bs) }
+func VerifUpdateCRC32(c uint32, bs []byte) uint32 { return updateCRC32(c, bs) }
+func VerifCRC32Table() [256]uint32 {
+	var t [256]uint32
+	copy(t[:], tableCRC32[:])
+	return t
+}
+
+func VerifParsePSIData(bs []byte) (*PSIData, error) {
+	return parsePSIData(astikit.NewBytesIterator(bs))
+}
+
+func VerifWritePSIData(d *PSIData) ([]byte, int, error) {
+	buf := &bytes.Buffer{}
+	w := astikit.NewBitsWriter(astikit.BitsWriterOptions{Writer: buf})
+	n, err := writePSIData(w, d)
+	return buf.Bytes(), n, err
+}
+
+func VerifPSIToData(d *PSIData, fp *Packet, pid uint16) []*DemuxerData { return d.toData(fp, pid) }
+
+func VerifParseDescriptors(bs []byte) ([]*Descriptor, int, error) {
+	i := astikit.NewBytesIterator(bs)
+	ds, err := parseDescriptors(i)
+	return ds, i.Offset(), err
+}
+
+func VerifWriteDescriptorsWithLength(ds []*Descriptor) ([]byte, int, error) {
+	buf := &bytes.Buffer{}
+	w := astikit.NewBitsWriter(astikit.BitsWriterOptions{Writer: buf})
+	n, err := writeDescriptorsWithLength(w, ds)
+	return buf.Bytes(), n, err
+}
+
+func VerifCalcDescriptorsLength(ds []*Descriptor) uint16 { return calcDescriptorsLength(ds) }
+
+func VerifParseDVBTime(bs []byte) (time.Time, error) {
+	return parseDVBTime(astikit.NewBytesIterator(bs))
+}
+
+func VerifWriteDVBTime(t time.Time) ([]byte, int, error) {
+	buf := &bytes.Buffer{}
+	w := astikit.NewBitsWriter(astikit.BitsWriterOptions{Writer: buf})
+	n, err := writeDVBTime(w, t)
+	return buf.Bytes(), n, err
+}
+
+func VerifParseDVBDurationMinutes(bs []byte) (time.Duration, error) {
+	return parseDVBDurationMinutes(astikit.NewBytesIterator(bs))
+}
+
+func VerifParseDVBDurationSeconds(bs []byte) (time.Duration, error) {
+	return parseDVBDurationSeconds(astikit.NewBytesIterator(bs))
+}
+
+func VerifWriteDVBDurationMinutes(d time.Duration) ([]byte, int, error) {
+	buf := &bytes.Buffer{}
+	w := astikit.NewBitsWriter(astikit.BitsWriterOptions{Writer: buf})
+	n, err := writeDVBDurationMinutes(w, d)
+	return buf.Bytes(), n, err
+}
+
+func VerifWriteDVBDurationSeconds(d time.Duration) ([]byte, int, error) {
+	buf := &bytes.Buffer{}
+	w := astikit.NewBitsWriter(astikit.BitsWriterOptions{Writer: buf})
+	n, err := writeDVBDurationSeconds(w, d)
+	return buf.Bytes(), n, err
+}
+
+func VerifParsePacket(bs []byte) (*Packet, error) {
+	return parsePacket(astikit.NewBytesIterator(bs), nil)
+}
+
+func VerifWritePacket(p *Packet, size int) ([]byte, int, error) {
+	buf := &bytes.Buffer{}
+	w := astikit.NewBitsWriter(astikit.BitsWriterOptions{Writer: buf})
+	n, err := writePacket(w, p, size)
+	return buf.Bytes(), n, err
+}
+
+func VerifParsePESData(bs []byte) (*PESData, error) {
+	return parsePESData(astikit.NewBytesIterator(bs))
+}
+
+func VerifWritePESHeader(h *PESHeader, payloadSize int) ([]byte, int, error) {
+	buf := &bytes.Buffer{}
+	w := astikit.NewBitsWriter(astikit.BitsWriterOptions{Writer: buf})
+	n, err := writePESHeader(w, h, payloadSize)
+	return buf.Bytes(), n, err
+}
+
+func VerifParseData(ps []*Packet, prs PacketsParser, pmtPIDs []uint16) ([]*DemuxerData, error) {
+	pm := newProgramMap()
+	for _, p := range pmtPIDs {
+		pm.setUnlocked(p, 1)
+	}
+	return parseData(ps, prs, pm)
+}
+
+// VerifMuxerState is a read-only projection of the muxer's counters
+type VerifMuxerStateT struct {
+	StreamPIDs              []uint16
+	ESCC                    map[uint16]int
+	PATCC, PMTCC            int
+	PATVersion, PMTVersion  int
+	PMUpdated, PMTUpdated   bool
+	PCRPID                  uint16
+	NextPID                 uint16
+	TablesRetransmitCounter int
+	TablesRetransmitPeriod  int
+}
+
+func VerifMuxerState(m *Muxer) VerifMuxerStateT {
+	s := VerifMuxerStateT{
+		ESCC:                    map[uint16]int{},
+		PATCC:                   m.patCC.get(),
+		PMTCC:                   m.pmtCC.get(),
+		PATVersion:              m.patVersion.get(),
+		PMTVersion:              m.pmtVersion.get(),
+		PMUpdated:               m.pmUpdated,
+		PMTUpdated:              m.pmtUpdated,
+		PCRPID:                  m.pmt.PCRPID,
+		NextPID:                 m.nextPID,
+		TablesRetransmitCounter: m.tablesRetransmitCounter,
+		TablesRetransmitPeriod:  m.tablesRetransmitPeriod,
+	}
+	for _, es := range m.pmt.ElementaryStreams {
+		s.StreamPIDs = append(s.StreamPIDs, es.ElementaryPID)
+	}
+	for pid, c := range m.esContexts {
+		s.ESCC[uint16(pid)] = c.cc.get()
+	}
+	return s
+}
+
+// VerifReadBufferRange returns the address range of the demuxer's reused packet read buffer (0,0 when absent)
+func VerifReadBufferRange(d *Demuxer) (lo, hi uintptr) {
+	if d.packetBuffer == nil || len(d.packetBuffer.packetReadBuffer) == 0 {
+		return 0, 0
+	}
+	b := d.packetBuffer.packetReadBuffer
+	lo = uintptr(unsafe.Pointer(&b[0]))
+	return lo, lo + uintptr(cap(b))
+}
+
+// VerifDemuxerState is a read-only projection of the demuxer's per-pass state
+type VerifDemuxerStateT struct {
+	PacketSize  int // -1 when no packet buffer exists
+	Buffered    int // parsed data waiting in the data buffer
+	Queued      map[uint16]int
+	ProgramPIDs []uint16
+}
+
+func VerifDemuxerState(d *Demuxer) VerifDemuxerStateT {
+	s := VerifDemuxerStateT{PacketSize: -1, Buffered: len(d.dataBuffer), Queued: map[uint16]int{}}
+	if d.packetBuffer != nil {
+		s.PacketSize = d.packetBuffer.packetSize
+	}
+	for pid, a := range d.packetPool.b {
+		s.Queued[uint16(pid)] = len(a.q)
+	}
+	for pid := range d.programMap.p {
+		s.ProgramPIDs = append(s.ProgramPIDs, uint16(pid))
+	}
+	return s
+}
+
+// VerifSetPoolHook installs an observer of bytesPool get/put (item identity and backing array range)
+func VerifSetPoolHook(f func(op string, item uintptr, lo, hi uintptr)) { verifPoolHook = f }
+
+// VerifSetAccHook installs an observer of packetAccumulator.add decisions
+func VerifSetAccHook(f func(pid uint16, cc uint8, decision string)) { verifAccHook = f }
+
+var verifPoolHook func(op string, item uintptr, lo, hi uintptr)
+var verifAccHook func(pid uint16, cc uint8, decision string)
+
+func verifPool(op string, p *bytesPoolItem) {
+	if f := verifPoolHook; f != nil {
+		var lo uintptr
+		if cap(p.s) > 0 {
+			lo = uintptr(unsafe.Pointer(&p.s[:1][0]))
+		}
+		f(op, uintptr(unsafe.Pointer(p)), lo, lo+uintptr(cap(p.s)))
+	}
+}
+
+func verifAcc(pid uint16, cc uint8, decision string) {
+	if f := verifAccHook; f != nil {
+		f(pid, cc, decision)
+	}
+}
